@@ -210,7 +210,9 @@ def rest(ctx, chk, zvt, crates):
         a = strip_ref(vx.operand(pt["args"][0], pbb))
         while a[0] == "call" and a[1].endswith("Deref::deref"):
             a = strip_ref(a[2][0])
-        chk.require(a[0] == "var" and a[1] == "buf", "C04-c/parse-whole-buffer", "read_packet",
+        # ... "the received buffer" = the vector whose tail the body read fills (whatever it is called)
+        body_dst = [x for x in walk(vx.operand(t3["args"][1], b3)) if x[0] == "var"]
+        chk.require(a[0] == "var" and any(x[2] == a[2] for x in body_dst), "C04-c/parse-whole-buffer", "read_packet",
                     "the parser is applied to %s, not to the whole received buffer" % show(a)[:60], "zvt_parse(&buf)", pt.get("sp"))
     # ---- (d) the codec side: reuse the C16 leaf tables for Adpu
     bodies = rules_c16.length_bodies(crates)
